@@ -22,6 +22,15 @@ type selfTestResult struct {
 
 func dumpFacts(m *Model, what string) {
 	r := m.Roots()
+	if strings.HasPrefix(what, "ssa:") {
+		// debug: print the SSA of the functions whose key contains the given text
+		for _, fn := range m.ModFns {
+			if strings.Contains(fnKey(fn), strings.TrimPrefix(what, "ssa:")) {
+				fn.WriteTo(os.Stdout)
+			}
+		}
+		return
+	}
 	switch what {
 	case "reach":
 		for name, roots := range map[string][]*ssa.Function{"render": r.Render, "load": r.Load, "lexparse": r.LexParse, "registry": r.Registry} {
